@@ -222,22 +222,37 @@ def check(prog, rep, tier):
     else:
         rep.bad('R09.d', 'origin-values', file=f.file, line=f.node.lineno, func=qual,
                 found='ORIGIN values accepted: %s' % sorted(map(str, okvals))[:8], expected='{0,1,2}', key='origin-values')
-    # prefix length > 32
-    for qual in (UPD + '.parse_prefix_list',):
+    # prefix length > 32: finite partition of the length octet 33..255 for both IPv4 prefix-list decoders
+    from ..values import BytesV
+    for qual in (UPD + '.parse_prefix_list', 'yabgp.message.attribute.nlri.ipv4_unicast.IPv4Unicast.parse'):
         f = prog.func(qual)
-        lim = None
-        for n in ast.walk(f.node):
-            if isinstance(n, ast.If) and isinstance(n.test, ast.Compare) and 'prefix_len' in src_of(n.test.left) \
-                    and any(isinstance(x, ast.Raise) for x in ast.walk(n)):
-                c = prog.try_fold(n.test.comparators[0], f.module, f.cls)
-                op = type(n.test.ops[0]).__name__
-                lim = (op, c, n.lineno)
+        accepted = []
+        other = []
+        for m in range(33, 256):
+            data = BytesV([('lit', bytes([m])), ('opq', Opaque('rest', 'bytes'), None)])
+            try:
+                _f, outs = codec.run(prog, qual, [data], {}, may_raise=False)
+            except AnalysisError as e:
+                other.append((m, str(e)))
+                continue
+            for k, v, st in outs:
+                if k == 'raise':
+                    cls_, sub = codec.exc_info(v, st)
+                    if cls_ != 'UpdateMessageError':
+                        other.append((m, 'raises %s' % cls_))
+                else:
+                    accepted.append(m)
+                    break
         key = 'prefix-len-limit:%s' % f.qualname
-        if lim and ((lim[0] == 'Gt' and lim[1] == 32) or (lim[0] == 'GtE' and lim[1] == 33)):
-            rep.ok('R09.d', key, file=f.file, line=lim[2])
-        else:
+        if accepted:
             rep.bad('R09.d', key, file=f.file, line=f.node.lineno, func=qual,
-                    found='prefix length limit test is %s' % (lim,), expected='reject > 32', key=key)
+                    found='a prefix length octet of %s is not rejected: a value such as a.b.c.d/%d is returned instead '
+                          'of an error' % (_ranges(accepted), accepted[0]),
+                    expected='UpdateMessageError for every length 33..255', key=key)
+        elif other:
+            rep.undecided('R09.d', key, file=f.file, line=f.node.lineno, found='%s: %s' % other[0])
+        else:
+            rep.ok('R09.d', key, file=f.file, line=f.node.lineno, found='lengths 33..255 rejected')
     # AS_PATH segment types
     f = prog.func(A + 'aspath.ASPath.parse')
     segs = None
@@ -305,6 +320,19 @@ def addpath_decoders(prog, rep):
                 rep.ok('R09.e', key, file=f.file, line=f.node.lineno, found='%d decoded element(s) on all paths' % nel)
             else:
                 rep.undecided('R09.e', key, file=f.file, line=f.node.lineno, found='no path decodes a prefix')
+
+
+def _ranges(xs):
+    xs = sorted(set(xs))
+    out = []
+    i = 0
+    while i < len(xs):
+        j = i
+        while j + 1 < len(xs) and xs[j + 1] == xs[j] + 1:
+            j += 1
+        out.append('%d' % xs[i] if i == j else '%d..%d' % (xs[i], xs[j]))
+        i = j + 1
+    return ', '.join(out)
 
 
 def dispatch_table(prog, pa):
